@@ -72,6 +72,46 @@ func runC03(t *core.Tape, st *core.Stats) *core.Violation {
 			what string
 		)
 
+		// now and then the primary data changes between two Include calls without
+		// changing its size: one member of the collection is replaced by another
+		// resource (so that whatever Include remembers about the primary data is stale)
+		if ncalls > 0 && len(ds.Primary) > 0 && t.Bool(1, 6) {
+			k := t.Draw(len(ds.Primary))
+			old := ds.Primary[k]
+			repl := world.DrawResSpec(t, old.Type, fmt.Sprintf("swapped%d", i))
+			swapped := false
+
+			if p := core.Call(func() {
+				switch col := doc.Data.(type) {
+				case *jsonapi.Resources:
+					(*col)[k] = repl.Clone().Materialise(schema)
+					swapped = true
+				case *jsonapi.SoftCollection:
+					// remove + add keeps the size; the new member goes last
+					col.Remove(old.ID)
+					col.Add(repl.Clone().Materialise(schema))
+					swapped = true
+				case jsonapi.Resource:
+					doc.Data = repl.Clone().Materialise(schema)
+					swapped = true
+				}
+			}); p != nil {
+				return viol(P, "no-panic", p.Func, "swap-primary:"+p.Class, "replacing a primary resource panicked: %s", p.Value)
+			}
+
+			if swapped {
+				if _, isSoft := doc.Data.(*jsonapi.SoftCollection); isSoft {
+					ds.Primary = append(append(append([]*world.ResSpec{}, ds.Primary[:k]...), ds.Primary[k+1:]...), repl)
+				} else {
+					ds.Primary = append([]*world.ResSpec{}, ds.Primary...)
+					ds.Primary[k] = repl
+				}
+
+				t.Logf("primary data: %q/%q replaced by %q/%q", old.Type.Name, old.ID, repl.Type.Name, repl.ID)
+				st.Inc("probe:primary-member-replaced-between-includes")
+			}
+		}
+
 		switch c := t.Draw(6); {
 		case c == 0 && len(pool) > 0: // a repeat (an equal resource, freshly built)
 			rs = pool[t.Draw(len(pool))]
@@ -166,6 +206,33 @@ func runC03(t *core.Tape, st *core.Stats) *core.Violation {
 
 	if ncalls >= 1 && facts.Resources >= 1 {
 		st.MarkNonTrivial()
+	}
+
+	// The bytes a successful marshal returned stay what they were, whatever is
+	// marshaled afterwards from the same Document value.
+	if t.Bool(1, 3) {
+		kept := string(out)
+
+		var second []byte
+
+		if p := core.Call(func() {
+			doc.Errors = append(doc.Errors, jsonapi.NewErrNotFound())
+			second, _ = jsonapi.MarshalDocument(doc, u)
+		}); p != nil {
+			return viol(P, "no-panic", p.Func, "marshal-again:"+p.Class, "the second MarshalDocument panicked: %s", p.Value)
+		}
+
+		st.Inc("probe:earlier-payload-revalidated")
+
+		if string(out) != kept {
+			return viol(P, "returned-bytes-stable", "MarshalDocument", ds.Kind, "the payload returned by MarshalDocument changed when the same document was marshaled again\n    was: %s\n    is:  %s", kept, out)
+		}
+
+		if second != nil {
+			if _, clause, msg := model.ValidateDocument(second, ds.PrePath, primaryRes); clause != "" {
+				return viol(P, clause, "MarshalDocument", ds.Kind+":errors-added", "%s\n    output: %s", msg, second)
+			}
+		}
 	}
 
 	st.State(core.HashString(fmt.Sprint(facts.PrimaryObjs, facts.Included, facts.HasErrors)))
